@@ -5,6 +5,7 @@ import pandas as pd
 from harness import stubs
 from harness import tlc as T
 from harness.core import canon
+from harness.decode import iround
 
 REJECT = (ValueError, TypeError, NotImplementedError)
 TAG = "c08"
@@ -77,8 +78,9 @@ def observe(cfg, variant=0):
             tuner = ForecastingRandomizedSearchCV(proto, cv=cv, param_distributions=grid, n_iter=len(cfg["tables"]),
                                                   scoring=sc, refit=cfg["refit"], random_state=variant)
         import joblib
+        fitfh = [2, 3] if variant % 2 else None      # a horizon handed to fit that differs from the splitter's [1]
         with joblib.parallel_backend("threading"):   # threads: the stubs' logs live in this process
-            tuner.fit(y)
+            tuner.fit(y, fh=fitfh)
         res = tuner.cv_results_
         col = "mean_test_" + sc.name
         tabs = [list(t) for t in cfg["tables"]]
@@ -87,10 +89,10 @@ def observe(cfg, variant=0):
             row_of[tabs.index(table_of(res.loc[ridx, "params"], cfg))] = ridx
         if sorted(row_of) != list(range(len(tabs))):
             return {"crash": "cv_results_ does not have one row per candidate: %s" % sorted(row_of)}
-        rows = [int(round(F * float(res.loc[row_of[i], col]) * 1000)) for i in range(len(tabs))]
-        if any(r % 1000 for r in rows):
+        rows = [iround(F * float(res.loc[row_of[i], col]) * 1000) for i in range(len(tabs))]
+        if any(r % 1000 for r in rows if r != -999999):
             return {"crash": "non-integer score table %s" % rows}
-        rows = [r // 1000 for r in rows]
+        rows = [r // 1000 if r != -999999 else r for r in rows]        # -999999: undefined (NaN) mean score
         best_row = int(tuner.best_index_)
         inv = {v: k for k, v in row_of.items()}
         log = [e for e in stubs.LOG[TAG] if e["ev"] == "fit"]
@@ -99,7 +101,7 @@ def observe(cfg, variant=0):
             w = [[e["first"], e["last"]] for e in log if e["table"] == t and e["last"] < n - 1]
             windows.append(w[:F] if cfg["nest"] != "mux" else w[:F])
         o = {"rows": rows, "best_index": inv[best_row] + 1,
-             "best_score": int(round(F * float(tuner.best_score_))),
+             "best_score": iround(F * float(tuner.best_score_)),
              "best_params": tabs.index(table_of(tuner.best_params_, cfg)) + 1,
              "windows": windows}
         # the template: same object, same parameters, unfitted; the refitted best forecaster is another object
@@ -111,7 +113,7 @@ def observe(cfg, variant=0):
         for i in range(len(tabs)):
             f = clone(proto).set_params(**params_of(i))
             ev = evaluate(f, cv, y, scoring=sc)
-            indep.append(int(round(F * float(ev["test_" + sc.name].mean()))))
+            indep.append(iround(F * float(ev["test_" + sc.name].mean(skipna=False))))
         o["indep"] = indep
         # delegation
         ynew = pd.Series([1000.0 + t for t in range(n, n + 2)], index=pd.RangeIndex(og + n, og + n + 2))
@@ -120,7 +122,13 @@ def observe(cfg, variant=0):
                      and e["table"] == tabs[o["best_params"] - 1]]
             o["refit_window"] = [whole[0]["first"], whole[0]["last"]] if whole else [-1, -1]
             direct = clone(proto).set_params(**tuner.best_params_)
-            direct.fit(y)
+            direct.fit(y, fh=fitfh)
+            if fitfh:      # predict() without a horizon answers for the one given to fit
+                a, b = tuner.predict(), direct.predict()
+                if list(a.index) != [og + n - 1 + h for h in fitfh] or list(a.index) != list(b.index) or \
+                        not np.allclose(a.values, b.values, rtol=0, atol=1e-9):
+                    return dict(o, crash="tuner.fit(y, fh=%s); predict() is indexed %s, the best forecaster fitted directly gives %s"
+                                % (fitfh, list(a.index), list(b.index)))
             same = bool(np.allclose(tuner.predict([1, 2]).values, direct.predict([1, 2]).values, rtol=0, atol=1e-9)) and \
                 list(tuner.predict([1, 2]).index) == list(direct.predict([1, 2]).index)
             o["cutoff"] = int(tuner.cutoff) - og
@@ -149,11 +157,11 @@ def observe(cfg, variant=0):
             o["delegates"] = False
             o["cutoff"] = -1
         # a second fit of the very same tuner object
-        first = (res[col].tolist(), int(tuner.best_index_), float(tuner.best_score_), repr(tuner.best_params_))
+        first = (repr(res[col].tolist()), int(tuner.best_index_), float(tuner.best_score_), repr(tuner.best_params_))
         with joblib.parallel_backend("threading"):
-            tuner.fit(y)
+            tuner.fit(y, fh=fitfh)
         res2 = tuner.cv_results_
-        o["again"] = bool((res2[col].tolist(), int(tuner.best_index_), float(tuner.best_score_), repr(tuner.best_params_)) == first)
+        o["again"] = bool((repr(res2[col].tolist()), int(tuner.best_index_), float(tuner.best_score_), repr(tuner.best_params_)) == first)
         return o
     except Exception as e:
         import traceback
